@@ -699,4 +699,6 @@ UNITS = [U_PULSE, U_IDX, U_MATCH, U_PULSES, U_CONT, U_CONNY, U_COUNT, C17.U_PC_A
 
 # every joined end is registered with its partner (Geobj._add_conn, Connected_Geobj.add: contracts stated with C09): an end
 # that matches but is not registered gets no junction pulse, so the count clause needs them
-EXTRA_UNITS = [('contracts.C09', 'U_ADD_CONN')]
+# ... and ends are matched where the objects ARE after all transformations (Wire.rotate/scale/translate keep the end-point
+# array current: unit of C13)
+EXTRA_UNITS = [('contracts.C09', 'U_ADD_CONN'), ('contracts.C13', 'U_WT')]
